@@ -366,3 +366,49 @@ package dagsync
 //@   requires host != nil
 //@   ensures result1 == nil ==> subOK(result0)
 //@   ensures result1 != nil ==> result0 == nil
+
+// ---------------------------------------------------------------------------
+// Entry-sync wrappers (C01): what they hand to syncEntries.
+
+// One entry block: the depth-0 selector, the general hook, no segmentation.
+//@ func (*Subscriber).SyncOneEntry
+//@   property C01
+//@   requires subOK(s) && handlersFree(s) && ctx != nil && !held(s.expSyncMutex) && !held(s.handlersMutex) && !held(s.scopedBlockHookMutex)
+//@   at call syncEntries#1: assert arg2 == peerInfo && arg3 == entCid && arg4 == s.selectorOne && arg5 == s.generalBlockHook && arg6 == -1
+
+// An entries chain: the per-call hook if given, else the general one; the per-call depth limit if given
+// (a selector built for exactly that limit), else the subscriber's entries selector.
+//@ func (*Subscriber).SyncEntries
+//@   property C01
+//@   requires subOK(s) && handlersFree(s) && ctx != nil && !held(s.expSyncMutex) && !held(s.handlersMutex) && !held(s.scopedBlockHookMutex)
+//@   ghost hook0 := zero("BlockHookFunc")
+//@   ghost rl := zero("selector.RecursionLimit")
+//@   at call getSyncOpts#1: after ghost hook0 := result.blockHook
+//@   at call recursionLimit#1: assert arg0 == opts.depthLimit && opts.depthLimit != 0
+//@   at call recursionLimit#1: after ghost rl := result
+//@   at call ExploreRecursive#1: assert arg1 == rl
+//@   at call syncEntries#1: assert arg2 == peerInfo && arg3 == entCid && arg5 == ite(hook0 == nil, s.generalBlockHook, hook0) && arg6 == s.segDepthLimit
+//@   at call syncEntries#1: assert opts.depthLimit == 0 ==> arg4 == s.selectorEnts
+//@   ensures-local count("call:syncEntries") == 1 && (count("call:recursionLimit") == 1 <==> opts.depthLimit != 0)
+
+// A HAMT: everything reachable, the per-call hook if given, no segmentation.
+//@ func (*Subscriber).SyncHAMTEntries
+//@   property C01
+//@   requires subOK(s) && handlersFree(s) && ctx != nil && !held(s.expSyncMutex) && !held(s.handlersMutex) && !held(s.scopedBlockHookMutex)
+//@   ghost hook0 := zero("BlockHookFunc")
+//@   at call getSyncOpts#1: after ghost hook0 := result.blockHook
+//@   at call syncEntries#1: assert arg2 == peerInfo && arg3 == entCid && arg4 == s.selectorAll && arg5 == ite(hook0 == nil, s.generalBlockHook, hook0) && arg6 == -1
+
+// The block-hook dispatcher given to the ipnisync client (C08): the hook registered for the publisher, if
+// any, is looked up under the read lock, which is released before the hook runs; it runs at most once,
+// with the arguments given; without a registered hook nothing runs.
+//@ func wrapBlockHook$1
+//@   property C08
+//@   requires scopedBlockHook != nil && !held(scopedBlockHookMutex)
+//@   at call f#1: assert has(scopedBlockHook, peerID) && arg0 == peerID && arg1 == cid && !held(scopedBlockHookMutex)
+//@   ensures-local count("rlock:scopedBlockHookMutex") == 1 && count("runlock:scopedBlockHookMutex") == 1 && !held(scopedBlockHookMutex)
+//@   ensures-local count("call:f") <= 1 && (count("call:f") == 1 <==> old(has(scopedBlockHook, peerID)))
+
+//@ func wrapBlockHook
+//@   property C08
+//@   ensures result0 != nil && result1 != nil && result2 != nil && !held(result0) && isfresh(result0) && isfresh(result1)
